@@ -127,6 +127,39 @@ def r1_r2_site(ctx, fam, fname):
             if good_gate is None:
                 continue
             c, g = good_gate
+            # the namespace the handler is told is the normalised one
+            key = (T.lineno, 'ns-normalised')
+            if key not in seen:
+                seen.add(key)
+                ctx.check(ns_or_default(a[1]) is not None, construct,
+                          "the namespace is normalised (`or '/'`) before the "
+                          'sid is looked up and the handler told',
+                          key='ns-normalised', reason="the disconnect path "
+                          'works with the raw namespace %s: a packet on the '
+                          'default namespace (None) is looked up under None '
+                          'and silently ignored' % t_ns,
+                          where=where(f, T.node), rid='C04.R2')
+            # disconnect(): ignore_queue selects the local test, otherwise
+            # the manager decides (a pub/sub manager forwards the request)
+            iq = [cc for cc in p.conds if cc.at <= c.at and
+                  U(cc.atom) == 'ignore_queue']
+            if iq:
+                key = (T.lineno, 'gate-choice', iq[-1].pol)
+                if key not in seen:
+                    seen.add(key)
+                    want_gate = 'is_connected' if iq[-1].pol else \
+                        'can_disconnect'
+                    ctx.check(g.func.attr == want_gate, construct,
+                              'ignore_queue=%s selects %s' % (iq[-1].pol,
+                                                              want_gate),
+                              key='gate-choice', reason='with ignore_queue='
+                              '%s the gate is %s: %s' % (
+                                  iq[-1].pol, g.func.attr,
+                                  'a request for a client of another host '
+                                  'is no longer forwarded through the queue'
+                                  if not iq[-1].pol else 'the local request '
+                                  'is published to the queue again'),
+                              where=where(f, T.node), rid='C04.R2')
             # --- mark
             marks = [e for e in p.calls('pre_disconnect')
                      if e.idx < T.idx and e.idx >= c.at and
@@ -520,6 +553,14 @@ def r4_connect(ctx, fam):
                  ns_or_default(run.expand(b.get('namespace'))) is not None,
                  'release names the new sid and namespace',
                  'manager.disconnect called as %s' % U(rel[0].expr)[:100])
+            iqv = {k.arg: k.value for k in rel[0].expr.keywords}.get(
+                'ignore_queue')
+            once('release-local', is_const(iqv, True), 'the release of a '
+                 'refused connection is local (ignore_queue=True)',
+                 'the refused sid is released with ignore_queue=%s: a '
+                 'pub/sub manager publishes a disconnect for a client that '
+                 'was never accepted, and its local step runs the disconnect '
+                 'handler for it' % txt(iqv), rel[0].node)
             if always:
                 marks = [x for x in p.calls('pre_disconnect')
                          if x.idx < e.idx]
